@@ -52,10 +52,12 @@ Record variant := mk_variant {
   fx_entry_push : bool;     (* Entry::push re-roots onto the new ENTRY, not onto a copy of the ROOT *)
   fx_builder_archs : bool;  (* RelationBuilder::build skips an empty architecture list *)
   fx_version_pos : bool;    (* set_version inserts after the architecture qualifier *)
-  fx_remove_last : bool     (* Relation::remove of the only alternative removes the entry *)
+  fx_remove_last : bool;    (* Relation::remove of the only alternative removes the entry *)
+  fx_first_substvar : bool; (* Entry::remove: a substitution variable in front counts as an item *)
+  fx_replace_ws : bool      (* Entry::replace strips the new relation's white space token by token *)
 }.
-Definition shipped : variant := mk_variant false false false false false false false false false.
-Definition fixed : variant := mk_variant true true true true true true true true true.
+Definition shipped : variant := mk_variant false false false false false false false false false false false.
+Definition fixed : variant := mk_variant true true true true true true true true true true true.
 
 (* ------------------------------------------------------------------ lists *)
 Definition insert_at {A} (i : nat) (new l : list A) : list A := firstn i l ++ new ++ skipn i l.
@@ -490,7 +492,7 @@ Definition relations_replace (r idx re : nat) : M unit :=
   end.
 
 (* Entry::remove *)
-Definition entry_remove (r : nat) : M unit :=
+Definition entry_remove (v : variant) (r : nat) : M unit :=
   h <- get_reg r ;;
   match parent_h h with
   | None => m_detach r
@@ -498,7 +500,7 @@ Definition entry_remove (r : nat) : M unit :=
     pcs <- children_of ph ;;
     let pre := firstn i pcs in
     let post := skipn (S i) pcs in
-    let is_first := negb (existsb is_entry pre) in
+    let is_first := negb (existsb (fun c => is_entry c || (fx_first_substvar v && node_is SUBSTVAR c)) pre) in
     match entry_remove_scan_next post with
     | Ok (k1, removed_comma) =>
         m_repeat k1 (m_detach_next r) ;;
@@ -513,12 +515,12 @@ Definition entry_remove (r : nat) : M unit :=
     end
   end.
 (* Relations::remove_entry; returns the text of the removed entry *)
-Definition relations_remove_entry (r idx : nat) : M str :=
+Definition relations_remove_entry (v : variant) (r idx : nat) : M str :=
   scoped (
     o <- nth_child_handle is_entry r idx ;;
     match o with
     | None => mpanic 41
-    | Some eh => re <- push_tmp eh ;; entry_remove re ;; n <- node_of_reg re ;; ret (text n)
+    | Some eh => re <- push_tmp eh ;; entry_remove v re ;; n <- node_of_reg re ;; ret (text n)
     end).
 
 (* Relation::remove *)
@@ -546,10 +548,10 @@ Definition relation_remove (v : variant) (r : nat) : M unit :=
         if fx_remove_last v then
           m_detach r ;;
           pcs' <- (ph' <- get_reg rp ;; children_of ph') ;;
-          if count_if is_relation pcs' =? 0 then entry_remove rp else ret tt
+          if count_if is_relation pcs' =? 0 then entry_remove v rp else ret tt
         else
           pcs' <- (ph' <- get_reg rp ;; children_of ph') ;;
-          if count_if is_relation pcs' =? 0 then entry_remove rp else m_detach r
+          if count_if is_relation pcs' =? 0 then entry_remove v rp else m_detach r
       else m_detach r)
   end.
 (* Entry::remove_relation; returns the text of the removed relation *)
@@ -599,7 +601,19 @@ Fixpoint push_tmps (hs : list hnd) : M (list nat) :=
   | [] => ret []
   | h :: r => k <- push_tmp h ;; ks <- push_tmps r ;; ret (k :: ks)
   end.
-Definition entry_replace (r idx rr : nat) : M unit :=
+(* detach the first / the last child of the node in register r *)
+Definition m_detach_first (r : nat) : M unit :=
+  h <- get_reg r ;; _ <- detach_h (child_h h 0) ;; ret tt.
+Definition m_detach_last (r : nat) : M unit :=
+  h <- get_reg r ;; cs <- children_of h ;; _ <- detach_h (child_h h (length cs - 1)) ;; ret tt.
+(* handles of the leading white space children of a node, and of the trailing ones from the end
+   backwards (last_child_or_token, then prev_sibling_or_token) *)
+Definition ws_head_handles (h : hnd) (cs : list rtree) : list hnd :=
+  map (child_h h) (seq 0 (ws_prefix_len cs)).
+Definition ws_tail_handles (h : hnd) (cs : list rtree) : list hnd :=
+  map (fun k => child_h h (length cs - 1 - k)) (seq 0 (ws_prefix_len (rev cs))).
+
+Definition entry_replace_shipped (r idx rr : nat) : M unit :=
   scoped (
     h <- get_reg r ;; cs <- children_of h ;;
     match nth_index is_relation idx cs with
@@ -611,11 +625,8 @@ Definition entry_replace (r idx rr : nat) : M unit :=
       ocs <- children_of oh ;;
       let new_head_len := ws_prefix_len ncs in
       let new_tail_len := ws_prefix_len (rev ncs) in
-      let old_head := map (child_h oh) (seq 0 (ws_prefix_len ocs)) in
-      (* last_child_or_token, then prev_sibling_or_token: from the end backwards *)
-      let old_tail := map (fun k => child_h oh (length ocs - 1 - k)) (seq 0 (ws_prefix_len (rev ocs))) in
-      heads <- push_tmps old_head ;;
-      tails <- push_tmps old_tail ;;
+      heads <- push_tmps (ws_head_handles oh ocs) ;;
+      tails <- push_tmps (ws_tail_handles oh ocs) ;;
       m_splice rr 0 new_head_len heads ;;
       ncs' <- (nh <- get_reg rr ;; children_of nh) ;;
       if length ncs' <? new_tail_len then mpanic 47 else
@@ -626,6 +637,29 @@ Definition entry_replace (r idx rr : nat) : M unit :=
       m_splice r index (S index) [rr]
     end) ;;
   set_reg rr None.
+(* with proposed_fixes/C11-11: the new relation's white space is detached token by token *)
+Definition entry_replace_fixed (r idx rr : nat) : M unit :=
+  scoped (
+    h <- get_reg r ;; cs <- children_of h ;;
+    match nth_index is_relation idx cs with
+    | None => mpanic 46
+    | Some oi =>
+      ro <- push_tmp (child_h h oi) ;;
+      ncs <- (nh <- get_reg rr ;; children_of nh) ;;
+      m_repeat (ws_prefix_len ncs) (m_detach_first rr) ;;
+      m_repeat (ws_prefix_len (rev (skipn (ws_prefix_len ncs) ncs))) (m_detach_last rr) ;;
+      oh <- get_reg ro ;; ocs <- children_of oh ;;
+      heads <- push_tmps (ws_head_handles oh ocs) ;;
+      tails <- push_tmps (ws_tail_handles oh ocs) ;;
+      m_splice rr 0 0 heads ;;
+      ncs' <- (nh <- get_reg rr ;; children_of nh) ;;
+      m_splice rr (length ncs') (length ncs') (rev tails) ;;
+      index <- (oh' <- get_reg ro ;; index_of oh') ;;
+      m_splice r index (S index) [rr]
+    end) ;;
+  set_reg rr None.
+Definition entry_replace (v : variant) (r idx rr : nat) : M unit :=
+  if fx_replace_ws v then entry_replace_fixed r idx rr else entry_replace_shipped r idx rr.
 
 (* Relation::drop_constraint (and set_version(None)) *)
 Definition relation_drop_constraint (r : nat) : M bool :=
@@ -841,7 +875,7 @@ Definition run_op (v : variant) (o : op) : M (N * option str) :=
   | OPush k => with_reg (ereg k) (relations_push v 0 (ereg k) ;; ret (0%N, None))
   | OInsert i k => with_reg (ereg k) (relations_insert v 0 i (ereg k) ;; ret (0%N, None))
   | OReplace i k => with_reg (ereg k) (relations_replace 0 i (ereg k) ;; ret (0%N, None))
-  | ORemoveEntry i => t <- relations_remove_entry 0 i ;; ret (0%N, Some t)
+  | ORemoveEntry i => t <- relations_remove_entry v 0 i ;; ret (0%N, Some t)
   | OEPush k m =>
       with_reg (rreg m) (
         b <- has_reg (ereg k) ;;
@@ -850,10 +884,10 @@ Definition run_op (v : variant) (o : op) : M (N * option str) :=
   | OEReplace k j m =>
       with_reg (rreg m) (
         b <- has_reg (ereg k) ;;
-        if b then entry_replace (ereg k) j (rreg m) ;; t <- reg_text (ereg k) ;; ret (0%N, t)
+        if b then entry_replace v (ereg k) j (rreg m) ;; t <- reg_text (ereg k) ;; ret (0%N, t)
         else set_reg (rreg m) None ;; ret (1%N, None))
   | OERemoveRel k j => through (ereg k) (_ <- entry_remove_relation v (ereg k) j ;; ret tt)
-  | OERemove k => through (ereg k) (entry_remove (ereg k))
+  | OERemove k => through (ereg k) (entry_remove v (ereg k))
   | ORRemove m => through (rreg m) (relation_remove v (rreg m))
   | OSetVersion m ver => through (rreg m) (relation_set_version v (rreg m) ver)
   | ODropConstraint m =>
